@@ -104,6 +104,7 @@ Lemma IB_register n cfg t c s p s' : g_max_idle cfg = n -> IB n s -> register cf
 Proof.
   intros Hn H Hr. unfold register in Hr.
   destruct (g_pool cfg && negb (t =? 0)); [destruct (share_of s c)|]; inversion Hr; subst; auto.
+  destruct (is_open s c); [|exact H].
   apply IB_pool_push. eapply IB_frame; [apply toks_clone_conn|exact H].
 Qed.
 
@@ -143,15 +144,16 @@ Proof.
   { subst s1. destruct (k_conn ck) as [c|]; [|exact H].
     destruct (is_open s c && (g_pool cfg && negb (k_token ck =? 0))); [rewrite Hn; apply IB_pool_push; exact H|].
     eapply IB_frame; [apply toks_drop_conn|exact H]. }
-  set (s2 := match k_inner ck with
-             | IDelayDrop => spawn (TDelayed rid (k_token ck) (k_owner ck)) s1
-             | _ => if g_pool cfg && negb (k_token ck =? 0) && k_owner ck then pool_cancel (k_token ck) s1 else s1 end).
+  set (started := match get_dial s1 rid with Some d => match d_stage d with DNew => false | _ => true end | None => false end).
+  set (delayed := match k_inner ck with IDelayDrop => started | _ => false end).
+  set (s2 := if delayed then spawn (TDelayed rid (k_token ck) (k_owner ck)) s1
+             else if g_pool cfg && negb (k_token ck =? 0) && k_owner ck then pool_cancel (k_token ck) s1 else s1).
   assert (H2 : IB n s2).
-  { subst s2. destruct (k_inner ck); try exact H1;
-      try (destruct (g_pool cfg && negb (k_token ck =? 0) && k_owner ck); [apply IB_pool_cancel|]; exact H1). }
+  { subst s2. destruct delayed; [exact H1|].
+    destruct (g_pool cfg && negb (k_token ck =? 0) && k_owner ck); [apply IB_pool_cancel|]; exact H1. }
   destruct (rx_drop ck s2) as [ck' s3] eqn:Hrx.
   assert (H3 : IB n s3) by (pose proof (IB_rx_drop n ck s2 H2) as Hx; rewrite Hrx in Hx; exact Hx).
-  destruct (k_inner ck); exact H3.
+  destruct (k_inner ck); try exact H3. destruct delayed; exact H3.
 Qed.
 
 Lemma IB_do_issue n cfg u p s : g_max_idle cfg = n -> IB n s -> IB n (do_issue cfg u p s).
